@@ -24,6 +24,10 @@ def main():
             subprocess.run('git -C /repo archive HEAD | tar -x -C %s' % tree, shell=True, check=True)
             if variant == 'patched':
                 r = sh(['git', 'apply', '--whitespace=nowarn', os.path.abspath(patch)], cwd=tree)
+                if r.returncode != 0:
+                    # written against the commit before a later fix: commit: same hunks, located with fuzz, patch.diff kept as written (run_mutants.py applies it the same way)
+                    r = sh(['patch', '-p1', '--fuzz=3', '--no-backup-if-mismatch', '-s', '-i', os.path.abspath(patch)], cwd=tree)
+                    log['fuzz'] = (r.returncode == 0)
                 log['apply'] = r.returncode
                 if r.returncode != 0:
                     print('patch does not apply:', r.stderr[-400:]); return 1
@@ -49,6 +53,7 @@ def main():
         meta2 = {'property': meta.get('property'), 'breaks': meta.get('summary'), 'needs_to_manifest': meta.get('needs_to_manifest'),
                  'why_tests_pass': meta.get('why_tests_pass'), 'files_changed': meta.get('files_changed'),
                  'origin': 'independent sub-agent given only the property text and a scratch worktree',
+                 'applied_with_fuzz': bool(log.get('fuzz')),
                  'verified_by_me': {'base_commit': sh(['git', '-C', '/repo', 'rev-parse', 'HEAD']).stdout.strip(),
                                     'commands': ['git archive HEAD | tar -x (clean and patched scratch copies under /dev/shm)', 'git apply patch.diff',
                                                  'PYTHONPATH=<tree> TMPDIR=<private> /venv/bin/python -m pytest -q -p no:cacheprovider',
